@@ -391,6 +391,14 @@ func (x *exec) copyBuiltin(st *State, cs *callSite) Val {
 		}
 		st.assume(Forall([]Term{i}, Eq(Select(content, i),
 			Ite(And(Le(d.Off, i), Lt(i, Add(d.Off, nn))), src, Select(old, i)))))
+		if l.Sort == SInt && len(leavesOf(et)) == 1 {
+			// words that lie entirely outside the copied range keep their value
+			if _, isByte := et.Underlying().(*types.Basic); isByte {
+				w := x.wordOf(content, i, 8)
+				wo := x.wordOf(old, i, 8)
+				st.assume(Forall([]Term{i}, Implies(Or(Le(Add(i, IntLit(8)), d.Off), Ge(i, Add(d.Off, nn))), Eq(w, wo))))
+			}
+		}
 		x.setHeap(st, key, Store(h, d.Arr, content), &d.Arr)
 	}
 	return nn
